@@ -72,6 +72,13 @@ def cases(tier, seed):
                 for rot in ("cube0", "gen0", "cube5"):
                     out.append({"shape": list(shape), "rot": rot, "range": list(RANGES[ri]), "axis": axis,
                                 "range2": list(RANGES[(ri + 1) % len(RANGES)]), "tier": tier})
+    # long boxes (one side of 65..131 voxels, the others small): sides that are not multiples of any block / slab / tile size
+    for shape in ((65, 12, 10), (9, 71, 9), (8, 8, 100), (97, 6, 7), (131, 5, 4)) + (((129, 9, 10), (10, 9, 127)) if tier == "thorough" else ()):
+        for ri in (0, 1):
+            for axis in ("y", "x"):
+                for rot in ("cube0", "gen0"):
+                    out.append({"shape": list(shape), "rot": rot, "range": list(RANGES[ri]), "axis": axis,
+                                "range2": list(RANGES[(ri + 1) % len(RANGES)]), "tier": tier})
     # more than 2**20 voxels and not cubic (a long filament box): beyond any "small grid" fast path
     for rot, ri, axis in (("cube0", 0, "y"), ("gen0", 1, "x")) + ((("gen1", 0, "x"), ("cube5", 3, "y")) if tier == "thorough" else ()):
         out.append({"shape": [64, 160, 128], "rot": rot, "range": list(RANGES[ri]), "axis": axis, "range2": list(RANGES[(ri + 1) % len(RANGES)]), "tier": tier})
